@@ -627,6 +627,65 @@ func genTimeConv(r *repo) string {
 		}
 		b.WriteString(t.exprDef("handleDataDtsDuration", []string{"pts", "dts", "t_track_ClockRate"}, nil, "Int", dd,
 			"`dtsDuration := …` in `clientTrack.handleData` (input of the real-time pacing; divides by the clock rate)"))
+		// the real-time pacing block: `if dtsDuration > elapsed { diff := …; if diff > cap { return error }; select { <-time.After(diff) | <-ctx.Done() } }`
+		var pace *ast.IfStmt
+		for _, s := range fd.Body.List[1:] {
+			if x, ok := s.(*ast.IfStmt); ok && x.Init == nil && x.Else == nil {
+				pace = x
+				break
+			}
+		}
+		if pace == nil || len(pace.Body.List) != 3 {
+			fatalf("clientTrack.handleData: pacing block `if dtsDuration > elapsed { diff; cap test; select }` not found")
+		}
+		da, ok1 := pace.Body.List[0].(*ast.AssignStmt)
+		ci, ok2 := pace.Body.List[1].(*ast.IfStmt)
+		sel, ok3 := pace.Body.List[2].(*ast.SelectStmt)
+		if !ok1 || !ok2 || !ok3 || len(da.Lhs) != 1 || ci.Init != nil || ci.Else != nil || len(ci.Body.List) != 1 {
+			fatalf("clientTrack.handleData: pacing block has an unexpected shape")
+		}
+		if id, ok := da.Lhs[0].(*ast.Ident); !ok || id.Name != "diff" {
+			fatalf("clientTrack.handleData: first statement of the pacing block does not define diff")
+		}
+		if ret, ok := ci.Body.List[0].(*ast.ReturnStmt); !ok || len(ret.Results) != 1 || func() bool { _, isCall := ret.Results[0].(*ast.CallExpr); return !isCall }() {
+			fatalf("clientTrack.handleData: the cap test does not return an error")
+		}
+		b.WriteString(t.exprDef("handleDataPaceWaits", []string{"dtsDuration", "elapsed"}, nil, "Bool", pace.Cond,
+			"condition of the pacing block of `clientTrack.handleData` (the sample is ahead of the real-time clock)"))
+		b.WriteString(t.exprDef("handleDataPaceDiff", []string{"dtsDuration", "elapsed"}, nil, "Int", da.Rhs[0],
+			"`diff := …` in the pacing block of `clientTrack.handleData`, nanoseconds"))
+		b.WriteString(t.exprDef("handleDataPaceTooBig", []string{"diff"}, nil, "Bool", ci.Cond,
+			"condition of `return fmt.Errorf(\"difference between DTS and RTC is too big\")` in `clientTrack.handleData`"))
+		sleepsDiff, cancels := false, false
+		for _, cc := range sel.Body.List {
+			c := cc.(*ast.CommClause)
+			es, ok := c.Comm.(*ast.ExprStmt)
+			if !ok {
+				continue
+			}
+			u, ok := es.X.(*ast.UnaryExpr)
+			if !ok || u.Op != token.ARROW {
+				continue
+			}
+			call, ok := u.X.(*ast.CallExpr)
+			if !ok {
+				continue
+			}
+			if n, ok := flatten(call.Fun); ok {
+				if n == "time_After" || n == "time.After" {
+					if id, ok := call.Args[0].(*ast.Ident); ok && id.Name == "diff" && len(c.Body) == 0 {
+						sleepsDiff = true
+					}
+				}
+				if (n == "ctx_Done" || n == "ctx.Done") && len(c.Body) == 1 {
+					if _, ok := c.Body[0].(*ast.ReturnStmt); ok {
+						cancels = true
+					}
+				}
+			}
+		}
+		fmt.Fprintf(&b, "/-- the pacing `select` of `clientTrack.handleData` sleeps exactly `diff` (`case <-time.After(diff):` with an empty body) -/\ndef handleDataPaceSleepsDiff : Bool := %v\n", sleepsDiff && len(sel.Body.List) == 2)
+		fmt.Fprintf(&b, "/-- … and its only other arm is `case <-ctx.Done(): return …` -/\ndef handleDataPaceCancelArm : Bool := %v\n\n", cancels && len(sel.Body.List) == 2)
 	}
 
 	// --- mediacommon mpegts.TimeDecoder --------------------------------------------------------
